@@ -6,6 +6,7 @@ toolchain go1.24.0
 
 require (
 	github.com/aws/aws-sdk-go-v2/service/kinesis v1.32.10
+	github.com/aws/aws-sdk-go-v2/service/s3 v1.72.2
 	google.golang.org/protobuf v1.36.3
 	reduction.dev/reduction v0.0.0
 	reduction.dev/reduction-protocol v0.0.5-0.20250502133230-e5852cf15cdc
@@ -27,7 +28,6 @@ require (
 	github.com/aws/aws-sdk-go-v2/service/internal/checksum v1.4.8 // indirect
 	github.com/aws/aws-sdk-go-v2/service/internal/presigned-url v1.12.8 // indirect
 	github.com/aws/aws-sdk-go-v2/service/internal/s3shared v1.18.8 // indirect
-	github.com/aws/aws-sdk-go-v2/service/s3 v1.72.2 // indirect
 	github.com/aws/aws-sdk-go-v2/service/sso v1.24.9 // indirect
 	github.com/aws/aws-sdk-go-v2/service/ssooidc v1.28.8 // indirect
 	github.com/aws/aws-sdk-go-v2/service/sts v1.33.6 // indirect
